@@ -1032,7 +1032,7 @@ func (c *ChannelWriter) releasePartitions(ctx context.Context, msgBase *commonpb
 	dbName, colName := c.mapDBAndCollectionName(databaseName, collectionName)
 	err := c.dataHandler.ReleasePartitions(ctx, &api.ReleasePartitionsParam{
 		ReplicateParam: api.ReplicateParam{
-			Database: databaseName,
+			Database: dbName,
 		},
 		ReleasePartitionsRequest: &milvuspb.ReleasePartitionsRequest{
 			Base:           msgBase,
@@ -1043,7 +1043,7 @@ func (c *ChannelWriter) releasePartitions(ctx context.Context, msgBase *commonpb
 	if err != nil {
 		log.Warn("fail to release partitions", zap.Any("msg", releasePartitionsMsg), zap.Error(err))
 		for _, p := range partitions {
-			skip, _ := c.WaitObjReady(ctx, dbName, collectionName, p, releasePartitionsMsg.EndTs())
+			skip, _ := c.WaitObjReady(ctx, databaseName, collectionName, p, releasePartitionsMsg.EndTs())
 			if !skip {
 				return err
 			}
